@@ -151,6 +151,28 @@ func (g *G) Lox() string {
 	return lx.String() + "\n" + ps.String()
 }
 
+// LoxFiles renders the grammar as one file, or (style bit 16) as two files:
+// the sections are split so that the file read first (by name) holds the parser
+// section when bit 8 is set and the lexer section otherwise.
+func (g *G) LoxFiles() map[string]string {
+	if g.Style&16 == 0 {
+		return map[string]string{"g.lox": g.Lox()}
+	}
+	text := g.Lox()
+	i := strings.Index(text, "\n@parser\n")
+	j := strings.Index(text, "\n@lexer\n")
+	var first, second string
+	switch {
+	case strings.HasPrefix(text, "@parser") && j >= 0:
+		first, second = text[:j+1], text[j+1:]
+	case strings.HasPrefix(text, "@lexer") && i >= 0:
+		first, second = text[:i+1], text[i+1:]
+	default:
+		return map[string]string{"g.lox": text}
+	}
+	return map[string]string{"a.lox": first, "b.lox": second}
+}
+
 // ---------------------------------------------------------------------------
 // Plain CFG
 
